@@ -129,12 +129,13 @@ type PkgContracts struct {
 	Transparent map[string]bool // Key()s of functions that are inlined instead of having a contract
 	Opaque      map[string]bool // recursive spec functions treated as uninterpreted with one-step unfolding
 	Recursive   map[string]bool // opaque + quantified defining axiom
+	Prefix      map[string]bool // opaque f(s, n, ...) declared to depend on s[0:n] only
 	PureFields  map[string]bool // Type.field: function-valued fields assumed to hold pure, total functions
 	Imports     map[string]string
 	Assumes     []string
 }
 
-var kwRe = regexp.MustCompile(`^(func|props|requires|ensures|modifies|loop|invariant|decreases|split|paths|cases|transparent|opaque|recursive|purefield|end|trusted|bounded)\b`)
+var kwRe = regexp.MustCompile(`^(func|props|requires|ensures|modifies|loop|invariant|decreases|split|paths|cases|transparent|opaque|recursive|purefield|prefix|end|trusted|bounded)\b`)
 
 // ParseDir parses the contract file of one package directory (nil if none).
 func ParseDir(dir, pkgPath string) (*PkgContracts, error) {
@@ -146,7 +147,7 @@ func ParseDir(dir, pkgPath string) (*PkgContracts, error) {
 		}
 		return nil, err
 	}
-	pc := &PkgContracts{PkgPath: pkgPath, Dir: dir, Transparent: map[string]bool{}, Opaque: map[string]bool{}, Recursive: map[string]bool{}, PureFields: map[string]bool{}, Imports: map[string]string{}}
+	pc := &PkgContracts{PkgPath: pkgPath, Dir: dir, Transparent: map[string]bool{}, Opaque: map[string]bool{}, Recursive: map[string]bool{}, Prefix: map[string]bool{}, PureFields: map[string]bool{}, Imports: map[string]string{}}
 	fset := token.NewFileSet()
 	// package name and imports from all non-test files of the directory
 	ents, _ := os.ReadDir(dir)
@@ -229,6 +230,11 @@ func ParseDir(dir, pkgPath string) (*PkgContracts, error) {
 		case "purefield":
 			for _, f := range strings.Fields(strings.ReplaceAll(rest, ",", " ")) {
 				pc.PureFields[f] = true
+			}
+			lastClause = nil
+		case "prefix":
+			for _, f := range strings.Fields(strings.ReplaceAll(rest, ",", " ")) {
+				pc.Prefix[f] = true
 			}
 			lastClause = nil
 		case "recursive":
